@@ -20,7 +20,7 @@ EXPLANATION = (
     "remove_enter_idle return a bool on every path, with both outcomes present; (5) SIB: the select and zmq loops (same state machine) agree on guards, helpers and results."
     ' Added after seed round 3: (7) a registry whose stored values are int parameters (file descriptors) is queried with `in` / `is not None`, never by the truthiness of the stored value.'
     " Round 4: the Twisted wrapper catches BaseException (the reactor swallows everything else); (8) self-made registry handles come from a counter, never from the registry's size; (9) the Twisted idle timer callback lowers its flag on every normal path."
-    " Round-4 triage: (10) an idle pass calls a callback only while it is still registered; (11) a dispatch batch (select, zmq) calls a watch only while it is still the registered one; (12) twisted's doRead returns nothing; (13) the zmq poll time-out is rounded up and an empty poller sleeps; (5, restated) select / zmq dispatch an alarm after a time-out or under an explicit due test, and do not require `not ready` (no starvation); (14) fdopen()/open() of a descriptor parameter passes closefd=False (the descriptor stays its caller's); (1, extended) the tornado wrapper catches BaseException like the twisted one (asyncio re-raises only SystemExit / KeyboardInterrupt itself); (15) every loop forgets an alarm - in the terms its remove_alarm() consults - before the callback runs; (16) a loop with a watch table plus per-watch objects registered with its host unregisters the old object when a descriptor is watched again."
+    " Round-4 triage: (10) an idle pass calls a callback only while it is still registered; (11) a dispatch batch (select, zmq) calls a watch only while it is still the registered one; (12) twisted's doRead returns nothing; (13) the zmq poll time-out is rounded up and an empty poller sleeps; (5, restated) select / zmq dispatch an alarm after a time-out or under an explicit due test, and do not require `not ready` (no starvation); (14) fdopen()/open() of a descriptor parameter passes closefd=False (the descriptor stays its caller's); (1, extended) the tornado wrapper catches BaseException like the twisted one (asyncio re-raises only SystemExit / KeyboardInterrupt itself); (15) every loop forgets an alarm - in the terms its remove_alarm() consults - before the callback runs; (16) a loop with a watch table plus per-watch objects registered with its host unregisters the old object when a descriptor is watched again. Round-5 triage: (1, sharpened) a handler in run() of select / zmq swallows unless its body ends in an unconditional raise (zmq's `if errno != EINTR: raise` around the whole iteration is reported); (3, extended) run() of select / zmq raises _did_something before the first iteration."
 )
 NOT_DECIDED = "Exactly-once, not-before-due and due-order of alarms, watch repetition, idle-before-quiescence under all interleavings - scheduler semantics under time."
 ASSUMPTIONS = ["The behaviour of the foreign scheduling APIs on a raising callable (log and continue) is taken from their documentation and recorded in the per-class table."]
@@ -115,7 +115,9 @@ def rule_wrap(ctx: Ctx, clause="C13.1") -> RuleResult:
                         sup |= {ast.unparse(a).split(".")[-1] for a in c.args}
             if isinstance(n, ast.Try):
                 for h in n.handlers:
-                    if h.type is not None and not any(isinstance(x, ast.Raise) for x in ast.walk(h)):
+                    # a handler swallows unless its body *ends* in an unconditional raise (`if errno != EINTR: raise`
+                    # still swallows the other case)
+                    if h.type is not None and not (h.body and isinstance(h.body[-1], ast.Raise)):
                         sup |= {ast.unparse(x).split(".")[-1] for x in (h.type.elts if isinstance(h.type, ast.Tuple) else [h.type])}
         rr.inst(f"{key}: run() absorbs ExitMainLoop and nothing broader", True, {"absorbed": sorted(sup)})
         if "ExitMainLoop" not in sup:
@@ -202,6 +204,17 @@ def rule_idle_arming(ctx: Ctx) -> RuleResult:
     rr.inst("twisted: wrapper re-enables idle", True)
     if not list(calls_in(tw, "_enable_twisted_idle")):
         rr.add(finding("PASS", tw, tw.node, "handle_exit's wrapper no longer calls _enable_twisted_idle()", construct="twisted idle not re-enabled"))
+    # select / zmq: run() itself starts with the flag raised - a callback that ended the previous run by raising never
+    # got to raise it, and the idle callbacks have to run after that callback before the loop first waits
+    for key in ("select", "zmq"):
+        r = p.func(f"{LOOPS[key]}.run")
+        rcfg = cfg_of(r)
+        arm = nodes_where(rcfg, lambda s: isinstance(s, ast.Assign) and any(isinstance(t, ast.Attribute) and t.attr == "_did_something" for t in s.targets) and isinstance(s.value, ast.Constant) and s.value.value is True)
+        loops_ = nodes_where(rcfg, lambda s: isinstance(s, ast.Call) and isinstance(s.func, ast.Attribute) and s.func.attr == "_loop")
+        ok = bool(arm) and bool(loops_) and all(rcfg.dominated(l_, arm) for l_ in loops_)
+        rr.inst(f"{key}: run() starts with an idle pass armed", True, {"loop": key, "armed_before_first_iteration": ok})
+        if not ok:
+            rr.add(finding("PASS", r, r.node, f"{r.cls.name}.run() does not raise _did_something before its first iteration: after a run that a callback ended by raising, the next run() goes straight into waiting without the idle callbacks (the screen redraw) having run after that callback", construct=f"{key}: run() does not arm the idle pass"))
     # select / zmq: every callback invocation in _loop is followed by _did_something = True
     for key in ("select", "zmq"):
         lp = p.func(f"{LOOPS[key]}._loop")
@@ -316,7 +329,7 @@ def rule_select_zmq(ctx: Ctx) -> RuleResult:
         pops = nodes_where(cfg, lambda s: isinstance(s, ast.Call) and ast.unparse(s.func) == "heapq.heappop")
         idle = nodes_where(cfg, lambda s: isinstance(s, ast.Call) and callee_name(s) == "_entering_idle")
         # the ready set by role: the local whose definition calls the selector's select() / the poller's poll()
-        ready = {nm for nm, ds in du.defs.items() for _dn, v, _how in ds if isinstance(v, ast.AST) and any(isinstance(x, ast.Call) and isinstance(x.func, ast.Attribute) and x.func.attr in ("select", "poll") for x in ast.walk(v))}
+        ready = {nm for nm, ds in du.defs.items() for _dn, v, _how in ds if isinstance(v, ast.AST) and any(isinstance(x, ast.Call) and isinstance(x.func, ast.Attribute) and x.func.attr.lstrip("_") in ("select", "poll") for x in ast.walk(v))}
         empties = [n for n in cfg.nodes if n.kind == "test" and isinstance(n.ast, ast.UnaryOp) and isinstance(n.ast.op, ast.Not) and isinstance(n.ast.operand, ast.Name) and n.ast.operand.id in ready]
         rr.inst(f"{key}._loop: alarm/idle only when nothing is ready", True, {"loop": key, "pop_sites": len(pops), "idle_sites": len(idle)})
         if not pops or not idle or not empties:
@@ -534,7 +547,7 @@ def rule_batch_dispatch(ctx: Ctx) -> RuleResult:
         lp = p.func(f"{LOOPS[key]}._loop")
         du = DefUse(lp)
         cfg = du.cfg
-        ready = {nm for nm, ds in du.defs.items() for _dn, v, _how in ds if isinstance(v, ast.AST) and any(isinstance(x, ast.Call) and isinstance(x.func, ast.Attribute) and x.func.attr in ("select", "poll") for x in ast.walk(v))}
+        ready = {nm for nm, ds in du.defs.items() for _dn, v, _how in ds if isinstance(v, ast.AST) and any(isinstance(x, ast.Call) and isinstance(x.func, ast.Attribute) and x.func.attr.lstrip("_") in ("select", "poll") for x in ast.walk(v))}
         loops = [h for h in cfg.nodes if h.kind == "for" and isinstance(h.ast.iter, ast.Name) and h.ast.iter.id in ready]
         if not loops:
             raise AnalysisError(f"{key}._loop: the dispatch loop over the ready set was not found")
@@ -572,11 +585,11 @@ def rule_zmq_wait(ctx: Ctx) -> RuleResult:
     rr = RuleResult("BOUND", "C13.13", "ZMQEventLoop rounds the poll timeout up and sleeps when the poller is empty", floor=1)
     lp = p.func(f"{LOOPS['zmq']}._loop")
     cfg = cfg_of(lp)
-    polls = nodes_where(cfg, lambda x: isinstance(x, ast.Call) and isinstance(x.func, ast.Attribute) and x.func.attr == "poll" and x.args)
+    polls = nodes_where(cfg, lambda x: isinstance(x, ast.Call) and isinstance(x.func, ast.Attribute) and x.func.attr.lstrip("_") == "poll" and x.args)
     if not polls:
         raise AnalysisError("zmq._loop: the timed poll() call was not found")
     for n in polls:
-        call = next(x for x in ast.walk(n.ast) if isinstance(x, ast.Call) and isinstance(x.func, ast.Attribute) and x.func.attr == "poll" and x.args)
+        call = next(x for x in ast.walk(n.ast) if isinstance(x, ast.Call) and isinstance(x.func, ast.Attribute) and x.func.attr.lstrip("_") == "poll" and x.args)
         a = call.args[0]
         rr.inst(norm(call, 50), True, {"poll": norm(call, 60)})
         if not (isinstance(a, ast.Call) and callee_name(a) == "ceil"):
@@ -722,6 +735,8 @@ from ..mutants import Mut  # noqa: E402
 _S = "urwid/event_loop/select_loop.py"
 _A = "urwid/event_loop/asyncio_loop.py"
 MUTANTS = [
+    Mut("zmq-run-does-not-arm-idle", "urwid/event_loop/zmq_loop.py", "ZMQEventLoop.run", "            self._did_something = True\n", "", "PASS|event_loop.zmq_loop.ZMQEventLoop.run"),
+    Mut("zmq-run-swallows-callback-eintr", "urwid/event_loop/zmq_loop.py", "ZMQEventLoop.run", "            while True:\n                self._loop()\n", "            while True:\n                try:\n                    self._loop()\n                except zmq.error.ZMQError as exc:\n                    if exc.errno != errno.EINTR:\n                        raise\n", "WRAP|event_loop.zmq_loop.ZMQEventLoop.run"),
     Mut("asyncio-arms-idle-only-with-listeners", _A, "AsyncioEventLoop._also_call_idle", "            if not self._idle_asyncio_handle:", "            if self._idle_callbacks and not self._idle_asyncio_handle:", "PASS|event_loop.asyncio_loop.AsyncioEventLoop._also_call_idle"),
     Mut("twisted-rewatch-keeps-old-reader", "urwid/event_loop/twisted_loop.py", "TwistedEventLoop.watch_file", "        if fd in self._watch_files:\n            # the reactor keeps one reader per descriptor and ignores a second one: replace the old watch\n            self.reactor.removeReader(self._watch_files[fd])\n", "", "PAIR|event_loop.twisted_loop.TwistedEventLoop.watch_file"),
     Mut("asyncio-fired-alarm-still-removable", _A, "AsyncioEventLoop.alarm", "            handle.cancel()\n            callback()", "            callback()", "ORDER|event_loop.asyncio_loop.AsyncioEventLoop.alarm"),
@@ -729,7 +744,7 @@ MUTANTS = [
     Mut("tornado-alarm-forgotten-after-callback", "urwid/event_loop/tornado_loop.py", "TornadoEventLoop.alarm", "            with suppress(KeyError):\n                del self._pending_alarms[handle]\n\n            self.handle_exit(callback)()", "            self.handle_exit(callback)()\n            with suppress(KeyError):\n                del self._pending_alarms[handle]", "ORDER|event_loop.tornado_loop.TornadoEventLoop.alarm"),
     Mut("tornado-wrapper-catches-exception-only", "urwid/event_loop/tornado_loop.py", "TornadoEventLoop.handle_exit", "            except BaseException as exc:", "            except Exception as exc:", "WRAP|event_loop.tornado_loop.TornadoEventLoop.handle_exit"),
     Mut("zmq-watch-file-owns-descriptor", "urwid/event_loop/zmq_loop.py", "ZMQEventLoop.watch_file", "fd = os.fdopen(fd, closefd=False)", "fd = os.fdopen(fd)", "OWN|event_loop.zmq_loop.ZMQEventLoop.watch_file"),
-    Mut("zmq-poll-timeout-truncated", "urwid/event_loop/zmq_loop.py", "ZMQEventLoop._loop", "self._poller.poll(math.ceil(timeout * 1000))", "self._poller.poll(timeout * 1000)", "BOUND|event_loop.zmq_loop.ZMQEventLoop._loop"),
+    Mut("zmq-poll-timeout-truncated", "urwid/event_loop/zmq_loop.py", "ZMQEventLoop._loop", "self._poll(math.ceil(timeout * 1000))", "self._poll(timeout * 1000)", "BOUND|event_loop.zmq_loop.ZMQEventLoop._loop"),
     Mut("twisted-doread-returns-result", "urwid/event_loop/twisted_loop.py", "_TwistedInputDescriptor.doRead", "        self.cb()\n", "        return self.cb()\n", "WRAP|event_loop.twisted_loop._TwistedInputDescriptor.doRead"),
     Mut("select-run-suppresses-eintr", "urwid/event_loop/select_loop.py", "SelectEventLoop.run", "            while True:\n                self._loop()", "            while True:\n                with contextlib.suppress(InterruptedError):\n                    self._loop()", "WRAP|event_loop.select_loop.SelectEventLoop.run"),
     Mut("select-batch-calls-removed-watch", "urwid/event_loop/select_loop.py", "SelectEventLoop._loop", "            if self._watch_files.get(record.fd) is record.data:\n                record.data()\n                self._did_something = True", "            record.data()\n            self._did_something = True", "SNAP|event_loop.select_loop.SelectEventLoop._loop"),
